@@ -192,15 +192,16 @@ def schema(sps, exclude_const):
         by = {}
         for v in vals:
             v = _norm(v)
-            by.setdefault(type(v), set()).add(v)
-        # keep 1 / True / 1.0 apart although they are ==
-        out[k] = {t: {(type(x), x) for x in s} for t, s in by.items()}
+            by.setdefault(type(v), set()).add(canon(v))
+        # values as canonical JSON texts: keeps 1 / True / 1.0 apart although they are ==, and is independent of the hash of
+        # mappings nested in lists
+        out[k] = {t: sorted(s) for t, s in by.items()}
     return out
 
 
 def schema_of(project_schema):
     """normalise a signac ProjectSchema the same way"""
-    return {k: {t: {(type(x), x) for x in s} for t, s in project_schema[k].items() if s} for k in project_schema}
+    return {k: {t: sorted(canon(x) for x in s) for t, s in project_schema[k].items() if s} for k in project_schema}   # a list: duplicates show
 
 
 def diffs(sps):
